@@ -6,6 +6,59 @@ import os
 ROOT = os.path.dirname(os.path.dirname(os.path.abspath(__file__)))
 
 CHECKS = {
+    "C01": {
+        "text": "Proof (Coq, closed under the global context) of the chain at Layer A (archive entries + manifest lines): for every "
+                "storage produced by any sequence of runs into the newest group, runs into a new group and deletions of the k oldest "
+                "groups - the theorem does not depend on the rotation policy - every backup still present restores with ok = true to "
+                "a tree carrying exactly the snapshot its run saw (directories, files with bytes, symlinks, metadata) and nothing "
+                "else; the walk-order premise is discharged from the walker for every configuration of non-overlapping items; header "
+                "round trips for mtime (whole i64 range), ids, permission bits. Tied to the code by histories of real `vsb backup` "
+                "runs under a fake clock with every retained backup restored by the real `vsb restore` and compared field by field "
+                "with what its run read, plus the run / rotation / restore models compared with the decoded storage and the real "
+                "restore along the way.",
+        "note": "Assumptions of the property carried by the theorem: a fingerprint hit means unchanged content, distinct backup names "
+                "per group (clock not going backwards), fault-free unchanged trees. Hash = content in the model (SHA-512 assumed "
+                "collision-free). Partial: tar/zstd byte-level fidelity and the effects of chown/chmod/utimensat are observed, not "
+                "proved. F1 (pre-1970 mtimes) found and repaired.",
+        "technique": "Coq proof (history invariant HOK + plan/exec success) + differential histories against the real binary",
+        "design": "7/C01",
+    },
+    "C02": {
+        "text": "Proof (Coq, closed under the global context): one more run keeps the group verifiable - every non-empty extern line "
+                "of the appended backup resolves to a unique line earlier in the same group - for every group, file set and hash "
+                "function, unconditionally since the repair of F6; by induction over arbitrary histories of publishing and failed "
+                "runs; with unreadable manifests a run adds no damage of its own. Tied to the code by real run histories (rotation "
+                "with unchanged files, content moving / returning, same-identity size changes, a garbage manifest mid-group): the "
+                "decoded manifest and archive of every new backup are compared with the extracted model, and the property is "
+                "evaluated on every backup present after every run.",
+        "note": "Hash = content in the model. Directory order is taken from os.listdir on the unchanged directory. F6 (fingerprint "
+                "shortcut ignoring a size change) found and repaired.",
+        "technique": "Coq proof (fold-with-accumulator invariant over manifests) + differential histories against the real binary",
+        "design": "7/C02",
+    },
+    "C07": {
+        "text": "Proof (Coq, closed under the global context): over arbitrary histories with changing limits no group exceeds the "
+                "largest per-group limit in force; after a published run with a clean listing at most max_groups groups remain, the "
+                "newest is kept, the removed ones are the oldest whole groups; anything unlistable (group or root level) blocks every "
+                "deletion. Tied to the code by real run histories under a fake clock (same day, +1 h, next day, gaps), limits 1..4 x "
+                "1..4 changed between runs, storages seeded with debris: group and backup names after every run are compared with "
+                "the extracted model (publish + gc) and the property is evaluated on the real listing.",
+        "note": "Backups are counted as the listing recognises them (final-named directories with both files); chrono name formatting "
+                "under TZ=UTC is trusted. Open finding F3 concerns this code path (see C13).",
+        "technique": "Coq proof (invariant over run/fail/collect events) + differential histories against the real binary",
+        "design": "7/C07",
+    },
+    "C09": {
+        "text": "Proof (Coq, closed under the global context): a run keeps the group's unique hashes duplicate-free and never stores "
+                "an empty file's data; add_file does not touch the reader for an empty file or a fingerprint hit. Tied to the code "
+                "by duplication-heavy real run histories: decoded unique/extern flags and entry sizes vs the extracted model, and "
+                "per-path byte counts of read(2) on source files from an strace of every run vs 0 / 1x / 2x the file size as the "
+                "dedup decision predicts.",
+        "note": "Source files static during runs; strace completeness assumed (paths whose open is missing from the trace are "
+                "skipped and counted).",
+        "technique": "Coq proof + differential histories with system-call read counting",
+        "design": "7/C09",
+    },
     "C13": {
         "text": "Proof (Coq, closed under the global context): the verifier (listing + sequential inspection, transcribed) accepts "
                 "exactly the storages satisfying a declarative Healthy predicate written without reference to its traversal; a "
@@ -72,9 +125,9 @@ CHECKS = {
                 "BufRead::lines model; the encoding is injective. Tied to the code by comparing the real MetadataWriter / "
                 "MetadataReader (through zstd) with the extracted model on generated items and mutated lines, and by reading the "
                 "writer's output with an independent parser of the documented format.",
-        "note": "Partial: tar/zstd decodability with standard tools, entry/line alignment, unique-prefix hashes and storage "
-                "modes are observed at storage level (real vsb runs decoded independently), not proved; UTF-8 validity of lines "
-                "is outside the byte-level model.",
+        "note": "Partial: tar/zstd decodability with standard tools is observed (independent decoder on real runs: entry/line "
+                "alignment, unique-prefix hashes, extern entries empty, truthful size/hash/fingerprint, 0600/0700 modes), not "
+                "proved; UTF-8 validity of lines is outside the byte-level model.",
         "technique": "Coq round-trip proofs for the codec + differential correspondence with the real reader/writer",
         "design": "7/C10",
     },
